@@ -220,14 +220,6 @@ impl Gen<'_> {
         }
     }
 
-    fn ensure_bucket_wild(&mut self, b: &str) {
-        // the real backend creates a missing bucket directory on a write; follow it so that later
-        // operations of a non-clean history meet existing objects
-        if !self.clean {
-            self.sim.buckets.entry(b.to_owned()).or_default();
-        }
-    }
-
     fn op_put(&mut self) -> Option<String> {
         let w = self.who();
         let b = self.bucket(true);
@@ -490,7 +482,20 @@ impl Gen<'_> {
 
     fn op_rb(&mut self) -> Option<String> {
         let w = self.who();
-        let b = self.bucket(true);
+        let mut b = self.bucket(true);
+        // half of the time, when there is one: a bucket that holds no object but for which an upload is open — the complete
+        // that follows goes into a bucket that no longer exists (9bdb75f: `NoSuchBucket`, nothing recreated)
+        let orphaning: Vec<String> = self
+            .sim
+            .ups
+            .iter()
+            .filter(|u| u.alive && self.sim.buckets.get(&u.bucket).is_some_and(|m| m.is_empty()))
+            .filter(|u| !self.sim.maybe.iter().any(|(b2, _)| *b2 == u.bucket))
+            .map(|u| u.bucket.clone())
+            .collect();
+        if !orphaning.is_empty() && self.rng.chance(1, 2) {
+            b = orphaning[self.rng.below(orphaning.len() as u64) as usize].clone();
+        }
         if self.clean {
             if let Some(m) = self.sim.buckets.get(&b) {
                 if !m.is_empty() || self.sim.maybe.iter().any(|(b2, _)| *b2 == b) {
@@ -689,14 +694,16 @@ impl Gen<'_> {
         if self.clean {
             let i = i?;
             let up = &self.sim.ups[i];
-            if !exact_ok || !self.sim.buckets.contains_key(&b) || self.conflicts(&b, &k) {
+            if !exact_ok || self.conflicts(&b, &k) {
                 return None;
             }
+            // (since 9bdb75f a complete into a bucket that no longer exists is refused and changes nothing: a clean history
+            // may ask for it; the upload stays and can be completed once the bucket exists again)
             // (since 47e9b00 a complete replaces the side files of the object it replaces: a clean history may complete
             // over an object that has metadata or recorded checksums)
             // a single small part unless the parts are big enough
             pl = format!("+{}", run.iter().map(|(n, _)| n.to_string()).collect::<Vec<_>>().join(","));
-            good = up.owner == w;
+            good = up.owner == w && self.sim.buckets.contains_key(&b);
         } else {
             if self.conflicts(&b, &k) {
                 return None;
@@ -724,11 +731,12 @@ impl Gen<'_> {
                 let exact = pl == format!("+{}", run.iter().map(|(n, _)| n.to_string()).collect::<Vec<_>>().join(","));
                 // since 0096ef4 the real backend consumes the upload id only when the complete succeeds (an empty part list
                 // "succeeds" too); after a failed complete the upload stays and later operations keep addressing it
-                if good || (exact && exact_ok) || pl == "+" {
+                // ... and (9bdb75f) only when the bucket still exists: the object is not written into a bucket that is gone
+                let bucket_there = self.sim.buckets.contains_key(&b);
+                if bucket_there && (good || (exact && exact_ok) || pl == "+") {
                     self.sim.ups[i].alive = false;
                 }
                 if (good || (exact && exact_ok)) && !pl.ends_with('+') {
-                    self.ensure_bucket_wild(&b);
                     if let Some(objs) = self.sim.buckets.get_mut(&b) {
                         objs.insert(k.clone(), run.iter().map(|(_, l)| *l).sum());
                         self.sim.maybe.insert(dst.clone());
@@ -809,6 +817,51 @@ impl Gen<'_> {
         self.ops.push(format!("get:{w}:{}:{}:i{}-{}", hs(&b), hs(&k), lens[0] - 3, lens[0] + 2));
         self.ops.push(format!("get:{w}:{}:{}:s{}", hs(&b), hs(&k), lens[2] + 2));
     }
+
+    /// a scripted complete into a bucket that was deleted while the upload was open (9bdb75f: `NoSuchBucket`, the bucket is
+    /// not recreated, the upload stays); the random steps that follow find the upload alive and its bucket gone or back
+    fn orphan_script(&mut self) {
+        let w = self.who();
+        // a bucket that does not exist or holds nothing (delete_bucket refuses a bucket that holds objects)
+        let free: Vec<String> = self
+            .buckets
+            .iter()
+            .filter(|b| self.sim.buckets.get(*b).is_none_or(|m| m.is_empty()) && !self.sim.maybe.iter().any(|(b2, _)| b2 == *b))
+            .cloned()
+            .collect();
+        if free.is_empty() {
+            return;
+        }
+        let b = free[self.rng.below(free.len() as u64) as usize].clone();
+        let k = self.key();
+        let key_ok = !k.starts_with('/') && k.split('/').all(|x| x != "..") && k.split('/').any(|x| !x.is_empty() && x != ".");
+        if k.ends_with('/') || !key_ok || k != canon(&k) || k.len() > 120 {
+            return;
+        }
+        if !self.sim.buckets.contains_key(&b) {
+            self.ops.push(format!("mb:{w}:{}", hs(&b)));
+        }
+        let m = self.meta();
+        self.sim.ups.push(Up { owner: w, bucket: b.clone(), key: k.clone(), has_meta: m.is_some(), parts: BTreeMap::new(), alive: true });
+        let u = format!("u{}", self.sim.ups.len());
+        self.ops.push(format!("mpc:{w}:{}:{}:{}", hs(&b), hs(&k), meta_str(m.as_ref())));
+        let len = self.size();
+        let c = self.new_content(len);
+        self.ops.push(format!("mpu:{w}:{}:{}:{u}:1:{c}", hs(&b), hs(&k)));
+        self.sim.ups.last_mut().unwrap().parts.insert(1, len);
+        self.ops.push(format!("rb:{w}:{}", hs(&b)));
+        self.sim.buckets.remove(&b);
+        self.ops.push(format!("mpx:{w}:{}:{}:{u}:+1", hs(&b), hs(&k)));
+        match self.rng.below(3) {
+            0 => {}
+            1 => self.ops.push(format!("hb:{w}:{}", hs(&b))),
+            _ => {
+                // the bucket comes back: the upload can be completed now
+                self.sim.buckets.entry(b.clone()).or_default();
+                self.ops.push(format!("mb:{w}:{}", hs(&b)));
+            }
+        }
+    }
 }
 
 fn gen_history(rng: &mut Rng, clean: bool, big: bool, maxops: u64) -> Vec<String> {
@@ -860,9 +913,13 @@ fn gen_history(rng: &mut Rng, clean: bool, big: bool, maxops: u64) -> Vec<String
     }
     let n = g.rng.range(maxops / 3, maxops);
     let big_at = if g.big { g.rng.below(n.max(1)) } else { u64::MAX };
+    let orphan_at = if g.rng.chance(1, 8) { g.rng.below(n.max(1)) } else { u64::MAX };
     for i in 0..n {
         if i == big_at {
             g.big_script();
+        }
+        if i == orphan_at {
+            g.orphan_script();
         }
         g.step();
     }
